@@ -11,3 +11,7 @@ import LdkModel.Props.C07
 #print axioms Ldk.C07.package_output_sound
 #print axioms Ldk.C07.own_feerate_trajectory_monotone
 #print axioms Ldk.C07.rebroadcast_fee_slack
+#print axioms Ldk.C07.descriptor_matches_script
+#print axioms Ldk.C07.descriptor_kind_table
+#print axioms Ldk.C07.item_csv_is_script_csv
+#print axioms Ldk.C07.spendable_exactly_when_final
